@@ -52,6 +52,11 @@ fn main() {
         ("drive", "charsets") => charsets::drive(&a),
         ("drive", "c01") => regex::drive_c01(&a),
         ("drive", "c02") => regex::drive_c02(&a),
+        ("drive", "c03") => regex::drive_c03(&a),
+        ("drive", "c05") => regex::drive_c05(&a),
+        ("drive", "c16") => regex::drive_c16(&a),
+        ("drive", "c18") => regex::drive_c18(&a),
+        ("drive", "c19") => regex::drive_c19(&a),
         _ => usage(),
     }
 }
